@@ -3,6 +3,7 @@ package props
 import (
 	"fmt"
 	"strconv"
+	"strings"
 
 	jd "github.com/josephburnett/jd/v2"
 
@@ -151,10 +152,11 @@ func init() {
 	p := &mon.Property{
 		ID: "C09",
 		Rule: "cases are list-mode (a, b) pairs incl. pointer-hostile keys ('/', '~', '~0', '~1', '~01', empty, unicode, number-like, '-'), multi-add / multi-remove hunks with context, nested arrays, void sides; " +
-			"RenderPatch output is parsed and evaluated by the harness's RFC 6901/6902 evaluator on a (must give b) and on perturbed targets where the native diff applies (must give the same result); refusal is demanded exactly for number-like keys and '-'; " +
+			"RenderPatch output is parsed and evaluated by the harness's RFC 6901/6902 evaluator on a (must give b) and on perturbed targets where the native diff applies (must give the same result); refusal is demanded exactly for number-like keys and '-', also through both binaries (`-f patch`: rendering with status 1 or refusal with status 2 and empty stdout); " +
 			"non-trivial = non-empty expressible diff; distinct = distinct (a, b)",
 		Floors: map[string]int{"rfc_gives_b": 20000, "expect_refusal": 500, "target_native_applies": 5000, "target_differs_from_a_and_applies": 1000,
-			"hunk_list_multi": 3000, "op:test": 10000, "op:remove": 10000, "op:add": 10000, "hostile_key_in_diff": 1000},
+			"hunk_list_multi": 3000, "op:test": 10000, "op:remove": 10000, "op:add": 10000, "hostile_key_in_diff": 1000, "cli_expect_refusal": 15, "cli_expect_rendering": 40},
+		NeedsCLI: true,
 		Assumptions: []string{
 			"RFC 6902 reading of root replacement (DESIGN 5.9): `remove \"\"` makes the document absent, the only legal next op is `add \"\"`, an absent document at the end is the empty (void) document",
 			"the reference evaluator implements test / add / remove only (the ops jd emits) with the RFC 6901 array-index grammar",
@@ -208,6 +210,64 @@ func init() {
 			a := map[string]any{t1: map[string]any{t2: v}, t1 + sep + t2: []any{v, 1.0}}
 			b := map[string]any{t1: map[string]any{t2: w}, t1 + sep + t2: []any{w, 1.0, 2.0}}
 			c09Case(c, ref.ToJSON(a), ref.ToJSON(b), gen.PTiny)
+		},
+	})
+	p.Strata = append(p.Strata, mon.Stratum{
+		Name: "cli-render-or-refuse",
+		CLI:  true,
+		N:    qt(240, 6000),
+		Run: func(c *mon.Ctx, i int) {
+			// through the binaries: what the library renders is printed with status 1, what it
+			// refuses (number-like keys, "-", set paths) ends with status 2 and nothing on stdout
+			prof := patchProfiles[len(patchProfiles)-2] // hostile and number-like keys
+			a, b := gen.Pair(c.R, prof)
+			var flags []string
+			var opts []jd.Option
+			switch i % 6 {
+			case 4:
+				flags, opts = []string{"-set"}, []jd.Option{jd.SET}
+			case 5:
+				flags, opts = []string{"-mset"}, []jd.Option{jd.MULTISET}
+			}
+			aText, bText := ref.ToJSON(a), ref.ToJSON(b)
+			c.Input("a", aText)
+			c.Input("b", bText)
+			c.Input("flags", fmt.Sprint(flags))
+			d := ReadJ(aText).Diff(ReadJ(bText), opts...)
+			if len(d) == 0 {
+				c.Skip("no difference")
+				return
+			}
+			want, err := d.RenderPatch()
+			wantStatus := 1
+			if err != nil {
+				wantStatus = 2
+				c.Feature("cli_expect_refusal")
+			} else {
+				c.Feature("cli_expect_rendering")
+			}
+			c.Nontrivial(joinKey("cli", aText, bText, fmt.Sprint(flags)))
+			for _, bin := range []Binary{BinV2, BinTop} {
+				res := RunCLI(c, bin, append(append([]string{}, flags...), "-f", "patch", "a.json", "b.json"), "", map[string]string{"a.json": aText, "b.json": bText})
+				extra := map[string]any{"binary": bin.Name, "status": res.Status, "stdout": res.Stdout, "stderr": res.Stderr, "library": fmt.Sprint(want, err)}
+				if res.Status != wantStatus {
+					c.Violation(fmt.Sprintf("jd -f patch exited %d where the library %s", res.Status, map[int]string{1: "renders a JSON Patch (status 1)", 2: "refuses the path (status 2)"}[wantStatus]), extra)
+					return
+				}
+				if wantStatus == 2 && strings.TrimSpace(res.Stdout) != "" {
+					c.Violation("jd -f patch printed a document although the path is refused", extra)
+					return
+				}
+				if wantStatus == 1 {
+					got, perr := ref.FromJSON(res.Stdout)
+					wv, _ := ref.FromJSON(want)
+					if perr != nil || !ref.Eq(got, wv, ref.List) {
+						c.Violation("jd -f patch printed something else than the library's JSON Patch", extra)
+						return
+					}
+				}
+				c.Feature("cli_runs")
+			}
 		},
 	})
 	p.Strata = append(p.Strata, mon.Stratum{
